@@ -303,3 +303,73 @@ build_link_interaction = FunctionContract(
             ("atoms = tuple(match[idx] for idx in interaction.atoms)", "atoms = tuple(match[interaction.atoms[0]] for idx in interaction.atoms)")],
 )
 CONTRACTS.append(build_link_interaction)
+
+
+# ------------------------------------------------------------------ _pattern_match / _any_pattern_match: the patterns of a link
+LKey, MKey, MAttr, TAttr = TKey('LKey'), TKey('MKey'), TKey('MAttr'), TKey('TAttr')
+PatAtom = TTuple(LKey, TAttr)
+
+
+def pm_world(cx):
+    raw = cx.val('raw_match', TMap(LKey, MKey))            # link atom -> molecule atom
+    attrs_of = cx.uf('attrs_of', [MKey], MAttr)            # molecule.nodes[key]
+    amatch = cx.uf('amatch', [MAttr, TAttr], TBool)        # _atoms_match(molecule atom, template atom)
+    cx.spec_env['_atoms_match'] = Builtin(lambda e, a, t: wrap(TBool, amatch(to_z3(a, MAttr), to_z3(t, TAttr))), '_atoms_match')
+    cx.spec_env['RAW'] = raw
+    molecule = Obj('Molecule', nodes=Obj('NodeView', __getitem__=Builtin(lambda e, k: SV(MAttr, attrs_of(to_z3(k, MKey))), 'molecule.nodes[]')))
+    return molecule, raw
+
+
+def setup_pm(cx):
+    molecule, raw = pm_world(cx)
+    return dict(molecule=molecule, atoms=cx.val('atoms', TSeq(PatAtom)), raw_match=raw)
+
+
+SPEC_PM = {
+    # the q-th atom of the pattern P fits the molecule atom the match assigns to it
+    'fits': "lambda P, q: amatch(attrs_of(RAW[P[q][0]]), P[q][1])",
+    'pattern_ok': "lambda P: forall(lambda q: implies(0 <= q and q < len(P), fits(P, q)))",
+}
+pattern_match = FunctionContract(
+    F, '_pattern_match', 'C05', setup=setup_pm, spec_defs=SPEC_PM, spec_env=dict(LKey=LKey, MKey=MKey),
+    requires=["forall(lambda q: implies(0 <= q and q < len(atoms), atoms[q][0] in RAW))"],
+    locals=dict(g_bad=TInt), ghost_at={'entry': "g_bad = 0", 'before:stmt:return False': "g_bad = _i"},
+    ensures=[
+        # a pattern matches exactly when every one of its atoms fits the molecule atom assigned to it
+        "implies(result, pattern_ok(atoms))",
+        "implies(not result, 0 <= g_bad and g_bad < len(atoms) and not fits(atoms, g_bad))",
+    ],
+    loops={'L1': LoopSpec(inv=["forall(lambda q: implies(0 <= q and q < _i, fits(atoms, q)))"])},
+    canary=[("if not _atoms_match(molecule_attr, template_attr):", "if _atoms_match(molecule_attr, template_attr):"),
+            ("for link_key, template_attr in atoms:", "for link_key, template_attr in atoms[1:]:")],
+)
+CONTRACTS.append(pattern_match)
+
+
+def setup_apm(cx):
+    molecule, raw = pm_world(cx)
+    amatch, attrs_of = cx.eng.uf('amatch', [MAttr, TAttr], TBool), cx.eng.uf('attrs_of', [MKey], MAttr)
+    pt, mt = TSeq(PatAtom), TMap(LKey, MKey)
+
+    def pattern_match_(e, mol, atoms, rm):
+        # _pattern_match by its contract (proved above): True exactly when every atom of the pattern fits
+        if mol is not molecule or rm is not raw:
+            raise EngineError('_pattern_match on another molecule / match')
+        ae = to_z3(atoms, pt)
+        q = z3.FreshInt('pq')
+        return wrap(TBool, z3.ForAll([q], z3.Implies(z3.And(0 <= q, q < pt.len(ae)),
+                                                     amatch(attrs_of(mt.at(raw.e, PatAtom.get(pt.at(ae, q), 0))), PatAtom.get(pt.at(ae, q), 1)))))
+    cx.spec_env['_pattern_match'] = Builtin(pattern_match_, '_pattern_match')
+    return dict(molecule=molecule, patterns=cx.val('patterns', TSeq(TSeq(PatAtom))), rev_raw_match=raw)
+
+
+any_pattern_match = FunctionContract(
+    F, '_any_pattern_match', 'C05', setup=setup_apm, spec_defs=SPEC_PM, spec_env=dict(LKey=LKey, MKey=MKey),
+    requires=["forall(lambda p, q: implies(0 <= p and p < len(patterns) and 0 <= q and q < len(patterns[p]), patterns[p][q][0] in RAW))"],
+    ensures=[
+        # ... and a list of patterns is satisfied exactly when one of them matches (none when the list is empty)
+        "result == exists(lambda p: 0 <= p and p < len(patterns) and pattern_ok(patterns[p]))",
+    ],
+    canary=[("return any(", "return all(")],
+)
+CONTRACTS.append(any_pattern_match)
